@@ -10,7 +10,8 @@ CFG = {'assumptions': ['f64 inputs cross the boundary as bit patterns (non-finit
  'count': {'quick': 10000, 'thorough': 400000},
  'lean_files': ['GeoModel/Validation.lean', 'GeoModel/ValidationSpec.lean', 'GeoModel/Valid.lean',
                 'GeoModel/RelateSpec.lean', 'GeoModel/Ops/C14.lean',
-                'GeoProofs/Lemmas/C14PGeom.lean', 'GeoProofs/Lemmas/C14PRing.lean'],
+                'GeoProofs/Lemmas/C14PGeom.lean', 'GeoProofs/Lemmas/C14PRing.lean',
+                'GeoProofs/Lemmas/C14PPairs.lean'],
  'rule': 'a quarter valid shapes of all types from the shared generators (two representations), the rest '
          'malformed-leaning: valid polygons with one ring mutated (spike, over/undershoot along an edge, vertex '
          'revisit, consecutive repeat, vertex swap = bow-tie, collinear vertex, moved vertex, NaN/inf/-inf, '
@@ -65,7 +66,16 @@ MANIFEST = {'note': 'Trusted: Lean 4.33 kernel (axioms propext, Classical.choice
          'shared_end_pair_flagged (where a ring revisiting a vertex is caught although the coordinate '
          'comparison skips the offending pair); ringErrs_nil_iff_ringSimple (per-ring pass empty <-> ring simple); '
          'error soundness selfInt_sound (SelfIntersection names a ring with ringSimple = false, no hypothesis). '
-         'NOT proved: the ring-versus-ring clauses against polyValidRings (they rest on the adequacy of the DE-9IM specification) '
+         'Ring-versus-ring clauses with relate = the DE-9IM specification (from the shape of relateParts alone): '
+         'boundary_cells_never_area (a cell with a boundary row/column is never 2) hence boundaries_meet_in_points_iff '
+         '(dim BB <= 0 <-> BB != 1, the line clause is exact); ringPairErrs_nil_iff_relateSpec (the pass unfolded to '
+         'relateParts cells); holePair_no_error_of_spec / polyValidRings_no_holePair_errors (a polygon satisfying '
+         'polyValidRings draws no hole-versus-hole error); holePair_iff_partial (both directions given II of the two '
+         'holes is F or 2); error soundness onArea_sound and onLine_holes_sound against the specification (incl. that '
+         'the second hole is non-empty: an empty ring yields F in every non-exterior column). '
+         'NOT proved: the shell-versus-hole clauses against polyValidRings - the code relates the shell with the hole as a '
+         'LineString, the specification relates two polygons; their agreement rests on the adequacy of the DE-9IM '
+         'specification (S1) '
          '(exercised by the correspondence instead). The correspondence runs is_valid, check_validation and '
          'validation_errors of the real code (concrete type and through the Geometry enum) against the model, '
          'and judges the implementation\'s answers against an independent specification (ringSimple + the '
